@@ -33,27 +33,27 @@ Proof. unfold read_back. destruct (place_all [] d) as [m|]; [|reflexivity]. rewr
 (** * the value that is read back *)
 
 (* a table in a document position (root, sub-table, element of an array of tables) *)
-Definition cdoc (ml : bool) (v : tv) : tv := TTab (freeze_map (expect ml v)).
+Definition cdoc (ml tn : bool) (v : tv) : tv := TTab (freeze_map (expect ml tn v)).
 (* an entry of such a table *)
-Definition centry (ml : bool) (x : tv) : tv :=
+Definition centry (ml tn : bool) (x : tv) : tv :=
   match x with
-  | TTab _ => cdoc ml x
-  | TArr l => if is_aot x then TArr (map (cdoc ml) l) else value_of (inline_of ml x)
+  | TTab _ => cdoc ml tn x
+  | TArr l => if is_aot x then TArr (map (cdoc ml tn) l) else value_of (inline_of ml tn x)
   | TLeaf t => TLeaf t
   end.
-Definition ckv (ml : bool) (kv : bytes * tv) : bytes * tv := (fst kv, centry ml (snd kv)).
+Definition ckv (ml tn : bool) (kv : bytes * tv) : bytes * tv := (fst kv, centry ml tn (snd kv)).
 
-Lemma centry_line ml x : is_line x = true -> centry ml x = value_of (inline_of ml x).
+Lemma centry_line ml tn x : is_line x = true -> centry ml tn x = value_of (inline_of ml tn x).
 Proof.
   unfold is_line. destruct x as [t|l|m]; cbn [is_table negb andb]; try discriminate; intro H; [reflexivity|].
   cbn [centry]. apply negb_true_iff in H. rewrite H. reflexivity.
 Qed.
 
-Lemma freeze_sub ml x : is_aot x = true \/ is_table x = true -> freeze (sub_rnode ml x) = centry ml x.
+Lemma freeze_sub ml tn x : is_aot x = true \/ is_table x = true -> freeze (sub_rnode ml tn x) = centry ml tn x.
 Proof.
   intros [A|T].
   - destruct x as [t|l|m]; try discriminate. cbn [sub_rnode centry]. rewrite A. unfold aot_of. rewrite freeze_aot.
-    assert (NE : map (expect ml) l <> []) by (destruct l; [discriminate|discriminate]).
+    assert (NE : map (expect ml tn) l <> []) by (destruct l; [discriminate|discriminate]).
     rewrite <- (app_removelast_last [] NE). rewrite map_map. reflexivity.
   - destruct x as [t|l|m]; try discriminate. cbn [sub_rnode centry]. rewrite freeze_tab. reflexivity.
 Qed.
@@ -66,40 +66,36 @@ Proof.
   destruct x; try discriminate. reflexivity.
 Qed.
 
-Lemma map_ext_in_filter {A B} (f g : A -> B) (p : A -> bool) l :
-  (forall x, p x = true -> f x = g x) -> map f (filter p l) = map g (filter p l).
-Proof. intro H. apply map_ext_in. intros x Hin. apply filter_In in Hin as [_ Hp]. apply H. exact Hp. Qed.
-
-Lemma freeze_expect ml m : freeze_map (expect ml (TTab m)) = map (ckv ml) (order4 m).
+Lemma lines_e_line three m kv : In kv (lines_e three m) -> is_line (snd kv) = true.
 Proof.
-  rewrite expect_tab. unfold freeze_map, order4. rewrite !map_app, !map_map, <- app_assoc. cbn [fst snd].
-  f_equal; [|f_equal; [|f_equal]]; apply map_ext_in_filter; intros [k x] H; cbn [snd fst] in *; unfold ckv; cbn [fst snd]; f_equal.
-  - symmetry. apply centry_line. apply is_plain_line. exact H.
-  - symmetry. apply centry_line. apply is_mixed_line. exact H.
-  - apply freeze_sub. left. exact H.
-  - apply freeze_sub. right. exact H.
+  unfold lines_e. destruct three.
+  - rewrite in_app_iff. intros [H|H]; apply filter_In in H as [_ H]; [apply is_plain_line|apply is_mixed_line]; exact H.
+  - intro H. apply filter_In in H as [_ H]. exact H.
 Qed.
 
-Lemma cdoc_tab ml m : cdoc ml (TTab m) = TTab (map (ckv ml) (order4 m)).
+Lemma freeze_expect_root ml three tn m : freeze_map (expect_root ml three tn m) = map (ckv ml tn) (doc_order three m).
+Proof.
+  unfold expect_root, freeze_map, doc_order. rewrite !map_app, !map_map. cbn [fst snd]. f_equal.
+  - apply map_ext_in. intros [k x] H. unfold ckv. cbn [fst snd]. f_equal. symmetry. apply centry_line.
+    exact (lines_e_line three m (k, x) H).
+  - apply map_ext_in. intros [k x] H. unfold ckv. cbn [fst snd]. f_equal. apply freeze_sub.
+    exact (proj2 (subs_e_cases three m (k, x) H)).
+Qed.
+
+Lemma freeze_expect ml tn m : freeze_map (expect ml tn (TTab m)) = map (ckv ml tn) (doc_order tn m).
+Proof. rewrite expect_tab. apply (freeze_expect_root ml tn tn m). Qed.
+
+Lemma cdoc_tab ml tn m : cdoc ml tn (TTab m) = TTab (map (ckv ml tn) (doc_order tn m)).
 Proof. unfold cdoc. rewrite freeze_expect. reflexivity. Qed.
 
-Definition canon_root (ml three : bool) (m : list (bytes * tv)) : list (bytes * tv) :=
-  if three then map (ckv ml) (order4 m)
-  else map (ckv ml) (filter (fun kv => is_line (snd kv)) m ++ filter (fun kv => negb (is_line (snd kv))) m).
+(* the decoded root table, entries in order of first appearance *)
+Definition canon_root (ml three tn : bool) (m : list (bytes * tv)) : list (bytes * tv) :=
+  map (ckv ml tn) (doc_order three m).
 
-Lemma freeze_expect_root ml three m : freeze_map (expect_root ml three m) = canon_root ml three m.
+Theorem read_back_canonical ml three tn m :
+  wf_tv (TTab m) = true -> read_back (sections_of ml three tn m) = Some (canon_root ml three tn m).
 Proof.
-  destruct three; [apply freeze_expect|]. unfold expect_root, canon_root, freeze_map.
-  rewrite !map_app, !map_map. cbn [fst snd].
-  f_equal; apply map_ext_in_filter; intros [k x] H; cbn [snd fst] in *; unfold ckv; cbn [fst snd]; f_equal.
-  - symmetry. apply centry_line. exact H.
-  - apply freeze_sub. apply not_line_cases. exact H.
-Qed.
-
-Theorem read_back_canonical ml three m :
-  wf_tv (TTab m) = true -> read_back (sections_of ml three m) = Some (canon_root ml three m).
-Proof.
-  intro W. rewrite read_back_eq, (place_all_canonical ml three m W). cbn [optmap]. rewrite freeze_expect_root. reflexivity.
+  intro W. rewrite read_back_eq, (place_all_canonical ml three tn m W). cbn [optmap]. rewrite freeze_expect_root. reflexivity.
 Qed.
 
 (* ------------------------------------------------------------------------------------------ *)
@@ -170,14 +166,14 @@ Qed.
 (* ------------------------------------------------------------------------------------------ *)
 (** * the value read back equals the written value up to the order of map entries *)
 
-Lemma value_of_inline_tab ml m :
-  value_of (inline_of ml (TTab m)) = TTab (map (fun kv => (fst kv, value_of (inline_of ml (snd kv)))) (order3 m)).
+Lemma value_of_inline_tab ml tn m :
+  value_of (inline_of ml tn (TTab m)) = TTab (map (fun kv => (fst kv, value_of (inline_of ml tn (snd kv)))) (ordn tn m)).
 Proof. rewrite inline_of_tab, value_of_inl, map_map. reflexivity. Qed.
 
 Lemma map_fst_map {A B} (g : A -> B) (l : list (bytes * A)) : map fst (map (fun kv => (fst kv, g (snd kv))) l) = map fst l.
 Proof. rewrite map_map. reflexivity. Qed.
 
-Lemma sort_inline ml v : wf_tv v = true -> sort_tv (value_of (inline_of ml v)) = sort_tv v.
+Lemma sort_inline ml tn v : wf_tv v = true -> sort_tv (value_of (inline_of ml tn v)) = sort_tv v.
 Proof.
   induction v as [t|l IH|m IH] using tv_ind'; intro W.
   - reflexivity.
@@ -185,18 +181,18 @@ Proof.
     rewrite Forall_forall in IH. apply IH; [exact He|]. apply wf_arr in W. rewrite Forall_forall in W. apply W. exact He.
   - rewrite value_of_inline_tab, !sort_tv_tab. f_equal. rewrite map_map. cbn [fst snd].
     apply wf_tab in W as [ND W].
-    rewrite (map_ext_in _ (fun kv => (fst kv, sort_tv (snd kv))) (order3 m)).
+    rewrite (map_ext_in _ (fun kv => (fst kv, sort_tv (snd kv))) (ordn tn m)).
     + apply sort_entries_perm.
-      * apply Permutation_map. apply order3_perm.
-      * rewrite map_fst_map. eapply Permutation_NoDup; [|exact ND]. apply Permutation_map. symmetry. apply order3_perm.
+      * apply Permutation_map. apply ordn_perm.
+      * rewrite map_fst_map. eapply Permutation_NoDup; [|exact ND]. apply Permutation_map. symmetry. apply ordn_perm.
     + intros kv Hin. f_equal.
-      assert (Hm : In kv m) by (eapply Permutation_in; [apply order3_perm|exact Hin]).
+      assert (Hm : In kv m) by (eapply Permutation_in; [apply ordn_perm|exact Hin]).
       rewrite Forall_forall in IH, W. apply IH; [exact Hm|]. apply W. exact Hm.
 Qed.
 
-Lemma sort_doc_level ml m :
-  NoDup (map fst m) -> (forall kv, In kv m -> sort_tv (centry ml (snd kv)) = sort_tv (snd kv)) ->
-  forall m2, Permutation m2 m -> sort_tv (TTab (map (ckv ml) m2)) = sort_tv (TTab m).
+Lemma sort_doc_level ml tn m :
+  NoDup (map fst m) -> (forall kv, In kv m -> sort_tv (centry ml tn (snd kv)) = sort_tv (snd kv)) ->
+  forall m2, Permutation m2 m -> sort_tv (TTab (map (ckv ml tn) m2)) = sort_tv (TTab m).
 Proof.
   intros ND H m2 P. rewrite !sort_tv_tab. f_equal. rewrite map_map. unfold ckv. cbn [fst snd].
   rewrite (map_ext_in _ (fun kv => (fst kv, sort_tv (snd kv))) m2).
@@ -206,10 +202,10 @@ Proof.
   - intros kv Hin. f_equal. apply H. eapply Permutation_in; [exact P|exact Hin].
 Qed.
 
-Lemma sort_cdoc ml v : wf_tv v = true -> is_table v = true -> sort_tv (cdoc ml v) = sort_tv v.
+Lemma sort_cdoc ml tn v : wf_tv v = true -> is_table v = true -> sort_tv (cdoc ml tn v) = sort_tv v.
 Proof.
   induction v as [t|l IH|m IH] using tv_ind2; intros W T; try discriminate.
-  rewrite cdoc_tab. apply wf_tab in W as [ND W]. apply sort_doc_level; [exact ND| |apply order4_perm].
+  rewrite cdoc_tab. apply wf_tab in W as [ND W]. apply sort_doc_level; [exact ND| |apply doc_order_perm].
   intros [k x] Hin. cbn [snd]. rewrite Forall_forall in IH, W. destruct (IH _ Hin) as [Hx Hl]. specialize (W _ Hin).
   cbn [snd] in *. destruct x as [t|l|m'].
   - reflexivity.
@@ -222,7 +218,7 @@ Proof.
   - cbn [centry]. apply Hx; [exact W|reflexivity].
 Qed.
 
-Lemma sort_centry ml x : wf_tv x = true -> sort_tv (centry ml x) = sort_tv x.
+Lemma sort_centry ml tn x : wf_tv x = true -> sort_tv (centry ml tn x) = sort_tv x.
 Proof.
   intro W. destruct x as [t|l|m'].
   - reflexivity.
@@ -234,13 +230,78 @@ Proof.
   - cbn [centry]. apply sort_cdoc; [exact W|reflexivity].
 Qed.
 
-Theorem canon_root_equiv ml three m :
-  wf_tv (TTab m) = true -> sort_tv (TTab (canon_root ml three m)) = sort_tv (TTab m).
+Theorem canon_root_equiv ml three tn m :
+  wf_tv (TTab m) = true -> sort_tv (TTab (canon_root ml three tn m)) = sort_tv (TTab m).
 Proof.
   intro W. apply wf_tab in W as [ND W]. unfold canon_root.
-  assert (H : forall kv, In kv m -> sort_tv (centry ml (snd kv)) = sort_tv (snd kv)).
-  { intros kv Hin. apply sort_centry. rewrite Forall_forall in W. apply W. exact Hin. }
-  destruct three; apply sort_doc_level; try assumption; [apply order4_perm|apply filter_negb_perm].
+  apply sort_doc_level; [exact ND| |apply doc_order_perm].
+  intros kv Hin. apply sort_centry. rewrite Forall_forall in W. apply W. exact Hin.
+Qed.
+
+(* the value read back has distinct keys again *)
+Lemma wf_tab_intro m :
+  NoDup (map fst m) -> Forall (fun kv => wf_tv (snd kv) = true) m -> wf_tv (TTab m) = true.
+Proof.
+  intros ND F. cbn [wf_tv]. apply andb_true_iff. split; [apply keys_distinct_spec; exact ND|].
+  clear ND. induction m as [|[k x] r IH]; [reflexivity|]. inversion F; subst. cbn [snd] in *.
+  apply andb_true_iff. split; [assumption|apply IH; assumption].
+Qed.
+
+Lemma wf_gval ml tn v : wf_tv v = true -> wf_tv (value_of (inline_of ml tn v)) = true.
+Proof.
+  induction v as [t|l IH|m IH] using tv_ind'; intro W.
+  - reflexivity.
+  - cbn [inline_of value_of wf_tv]. rewrite map_map, forallb_map. apply forallb_forall. intros e He.
+    rewrite Forall_forall in IH. apply IH; [exact He|]. apply wf_arr in W. rewrite Forall_forall in W. apply W. exact He.
+  - rewrite value_of_inline_tab. apply wf_tab in W as [ND W]. apply wf_tab_intro.
+    + rewrite map_map. cbn [fst]. eapply Permutation_NoDup; [|exact ND]. apply Permutation_map. symmetry. apply ordn_perm.
+    + apply Forall_forall. intros kv Hin. apply in_map_iff in Hin as (kv' & <- & Hin'). cbn [snd].
+      assert (Hm : In kv' m) by (eapply Permutation_in; [apply ordn_perm|exact Hin']).
+      rewrite Forall_forall in IH, W. apply IH; [exact Hm|apply W; exact Hm].
+Qed.
+
+Lemma wf_doc_level ml tn m m2 :
+  NoDup (map fst m) -> Permutation m2 m -> (forall kv, In kv m -> wf_tv (centry ml tn (snd kv)) = true) ->
+  wf_tv (TTab (map (ckv ml tn) m2)) = true.
+Proof.
+  intros ND P H. apply wf_tab_intro.
+  - unfold ckv. rewrite map_fst_map. eapply Permutation_NoDup; [|exact ND]. apply Permutation_map. symmetry. exact P.
+  - apply Forall_forall. intros kv Hin. apply in_map_iff in Hin as (kv' & <- & Hin'). cbn [ckv snd].
+    apply H. eapply Permutation_in; [exact P|exact Hin'].
+Qed.
+
+Lemma wf_cdoc ml tn v : wf_tv v = true -> is_table v = true -> wf_tv (cdoc ml tn v) = true.
+Proof.
+  induction v as [t|l IH|m IH] using tv_ind2; intros W T; try discriminate.
+  rewrite cdoc_tab. apply wf_tab in W as [ND W]. apply (wf_doc_level ml tn m); [exact ND|apply doc_order_perm|].
+  intros [k x] Hin. cbn [snd]. rewrite Forall_forall in IH, W. destruct (IH _ Hin) as [Hx Hl]. specialize (W _ Hin).
+  cbn [snd] in *. destruct x as [t|l|m'].
+  - reflexivity.
+  - cbn [centry]. destruct (is_aot (TArr l)) eqn:A; [|apply wf_gval; exact W].
+    cbn [wf_tv]. rewrite forallb_map. apply forallb_forall. intros e He.
+    specialize (Hl l eq_refl). rewrite Forall_forall in Hl. apply wf_arr in W. rewrite Forall_forall in W.
+    apply Hl; [exact He|apply W; exact He|].
+    assert (Tl : forallb is_table l = true) by (destruct l; [discriminate|exact A]).
+    rewrite forallb_forall in Tl. apply Tl. exact He.
+  - cbn [centry]. apply Hx; [exact W|reflexivity].
+Qed.
+
+Lemma wf_centry ml tn x : wf_tv x = true -> wf_tv (centry ml tn x) = true.
+Proof.
+  intro W. destruct x as [t|l|m'].
+  - reflexivity.
+  - cbn [centry]. destruct (is_aot (TArr l)) eqn:A; [|apply wf_gval; exact W].
+    cbn [wf_tv]. rewrite forallb_map. apply forallb_forall. intros e He.
+    apply wf_arr in W. rewrite Forall_forall in W.
+    assert (Tl : forallb is_table l = true) by (destruct l; [discriminate|exact A]).
+    rewrite forallb_forall in Tl. apply wf_cdoc; [apply W; exact He|apply Tl; exact He].
+  - cbn [centry]. apply wf_cdoc; [exact W|reflexivity].
+Qed.
+
+Theorem wf_canon_root ml three tn m : wf_tv (TTab m) = true -> wf_tv (TTab (canon_root ml three tn m)) = true.
+Proof.
+  intro W. apply wf_tab in W as [ND W]. apply (wf_doc_level ml tn m); [exact ND|apply doc_order_perm|].
+  intros kv Hin. apply wf_centry. rewrite Forall_forall in W. apply W. exact Hin.
 Qed.
 
 (* ------------------------------------------------------------------------------------------ *)
@@ -253,26 +314,21 @@ Proof.
   intros (k & r & ->) E. apply (f_equal (@length bytes)) in E. rewrite app_length in E. cbn [length] in E. lia.
 Qed.
 
-Definition rest_secs (ml three : bool) (m : list (bytes * tv)) (p : path) : list section :=
-  if three then flat_map (aot_secs ml p) m ++ flat_map (tab_secs ml p) m else flat_map (sub_secs ml p) m.
+Lemma rest_secs_rel ml three tn m : Forall nonroot (rest_secs ml three tn m []).
+Proof. rewrite rest_groups. apply groups_nonroot. Qed.
 
-Lemma rest_secs_rel ml three m : Forall nonroot (rest_secs ml three m []).
+Lemma rest_secs_shift ml three tn m p : rest_secs ml three tn m p = map (shift p) (rest_secs ml three tn m []).
 Proof.
-  unfold rest_secs. destruct three; [rewrite rest_groups|rewrite sub_secs_groups]; apply groups_nonroot.
-Qed.
-
-Lemma rest_secs_shift ml three m p : rest_secs ml three m p = map (shift p) (rest_secs ml three m []).
-Proof.
-  pose proof (sections_shift ml (TTab m) three p [] KArr) as H. rewrite app_nil_r in H.
-  rewrite !sections_at_tab in H. fold (rest_secs ml three m p) in H. fold (rest_secs ml three m []) in H.
+  pose proof (sections_shift ml tn (TTab m) three p [] KArr) as H. rewrite app_nil_r in H.
+  rewrite !sections_at_tab in H.
   unfold own_section in H. cbn [own_visible] in H. rewrite map_app in H. cbn [map app] in H.
   injection H as _ H. exact H.
 Qed.
 
-Lemma rest_secs_strict ml three m p : Forall (fun s => strict_prefix p (s_path s)) (rest_secs ml three m p).
+Lemma rest_secs_strict ml three tn m p : Forall (fun s => strict_prefix p (s_path s)) (rest_secs ml three tn m p).
 Proof.
   rewrite rest_secs_shift. apply Forall_forall. intros s H. apply in_map_iff in H as (s' & <- & Hin).
-  pose proof (rest_secs_rel ml three m) as NR. rewrite Forall_forall in NR. specialize (NR s' Hin).
+  pose proof (rest_secs_rel ml three tn m) as NR. rewrite Forall_forall in NR. specialize (NR s' Hin).
   unfold nonroot in NR. cbn [shift s_path]. destruct (s_path s') as [|k r]; [congruence|]. exists k, r. reflexivity.
 Qed.
 
@@ -290,30 +346,30 @@ Qed.
 (* in the sections of a table at path p: once a section below p has been written, every later
    section is below p too — no key/value line of the table itself (they all sit in its own section,
    the only one with path p) comes after one of its sub-tables or arrays of tables *)
-Theorem values_before_tables ml three m p kind pre s post :
-  sections_at ml three (TTab m) p kind = pre ++ s :: post ->
+Theorem values_before_tables ml three tn m p kind pre s post :
+  sections_at ml three tn (TTab m) p kind = pre ++ s :: post ->
   strict_prefix p (s_path s) ->
   Forall (fun s' => strict_prefix p (s_path s')) post.
 Proof.
-  rewrite sections_at_tab. fold (rest_secs ml three m p). intros E Ps.
+  rewrite sections_at_tab. intros E Ps.
   apply (split_tail (fun s' => strict_prefix p (s_path s')) _ _ _ _ _ E); [|exact Ps|apply rest_secs_strict].
-  intros o Ho Po. unfold own_section in Ho. destruct (own_visible kind m (own_lines ml three m)); [|destruct Ho].
+  intros o Ho Po. unfold own_section in Ho. destruct (own_visible kind m (own_lines ml three tn m)); [|destruct Ho].
   destruct Ho as [<-|[]]. cbn [s_path] in Po. exact (strict_prefix_neq p p Po eq_refl).
 Qed.
 
 (* all key/value lines of the table are in its own section *)
-Theorem own_section_first ml three m p kind :
-  sections_at ml three (TTab m) p kind = own_section ml three m p kind ++ rest_secs ml three m p /\
-  Forall (fun s => strict_prefix p (s_path s)) (rest_secs ml three m p).
+Theorem own_section_first ml three tn m p kind :
+  sections_at ml three tn (TTab m) p kind = own_section ml three tn m p kind ++ rest_secs ml three tn m p /\
+  Forall (fun s => strict_prefix p (s_path s)) (rest_secs ml three tn m p).
 Proof. split; [apply sections_at_tab|apply rest_secs_strict]. Qed.
 
 (* ------------------------------------------------------------------------------------------ *)
 (** * plain and pretty layouts read back to the same value *)
 
-Lemma value_inline_layout ml v : value_of (inline_of ml v) = value_of (inline_of false v).
+Lemma value_inline_layout ml tn v : value_of (inline_of ml tn v) = value_of (inline_of false tn v).
 Proof. rewrite !inline_of_fmt. apply value_of_fmt_value. Qed.
 
-Lemma centry_layout ml x : centry ml x = centry false x.
+Lemma centry_layout ml tn x : centry ml tn x = centry false tn x.
 Proof.
   induction x as [t|l IH|m IH] using tv_ind2.
   - reflexivity.
@@ -322,30 +378,37 @@ Proof.
     assert (Tl : forallb is_table l = true) by (destruct l; [discriminate|exact A]).
     rewrite forallb_forall in Tl. specialize (Tl e He). destruct e; try discriminate. exact IH.
   - cbn [centry]. rewrite !cdoc_tab. f_equal. apply map_ext_in. intros kv Hin. unfold ckv. f_equal.
-    assert (Hm : In kv m) by (eapply Permutation_in; [apply order4_perm|exact Hin]).
+    assert (Hm : In kv m) by (eapply Permutation_in; [apply doc_order_perm|exact Hin]).
     rewrite Forall_forall in IH. exact (proj1 (IH kv Hm)).
 Qed.
 
-Theorem canon_root_layout ml three m : canon_root ml three m = canon_root false three m.
+Theorem canon_root_layout ml three tn m : canon_root ml three tn m = canon_root false three tn m.
 Proof.
-  unfold canon_root. destruct three; apply map_ext; intro kv; unfold ckv; f_equal; apply centry_layout.
+  unfold canon_root. apply map_ext; intro kv; unfold ckv; f_equal; apply centry_layout.
 Qed.
 
 (* ------------------------------------------------------------------------------------------ *)
 (** * the regrouped value has the same kinds of entries *)
 
-Definition gval (ml : bool) (v : tv) : tv := value_of (inline_of ml v).
+Lemma map_ext_in_filter {A B} (f g : A -> B) (p : A -> bool) l :
+  (forall x, p x = true -> f x = g x) -> map f (filter p l) = map g (filter p l).
+Proof. intro H. apply map_ext_in. intros x Hin. apply filter_In in Hin as [_ Hp]. apply H. exact Hp. Qed.
+
+Lemma doc_order_true m : doc_order true m = order4 m.
+Proof. unfold doc_order, lines_e, subs_e, order4. rewrite <- app_assoc. reflexivity. Qed.
+
+Definition gval (ml : bool) (v : tv) : tv := value_of (inline_of ml true v).
 
 Lemma gval_arr ml l : gval ml (TArr l) = TArr (map (gval ml) l).
 Proof. unfold gval. cbn [inline_of value_of]. rewrite map_map. reflexivity. Qed.
 
 Lemma gval_tab ml m : gval ml (TTab m) = TTab (map (fun kv => (fst kv, gval ml (snd kv))) (order3 m)).
-Proof. apply value_of_inline_tab. Qed.
+Proof. apply (value_of_inline_tab ml true). Qed.
 
 Lemma is_table_gval ml v : is_table (gval ml v) = is_table v.
 Proof. destruct v as [t|l|m]; [reflexivity|rewrite gval_arr; reflexivity|rewrite gval_tab; reflexivity]. Qed.
 
-Lemma is_table_cdoc ml v : is_table (cdoc ml v) = true.
+Lemma is_table_cdoc ml tn v : is_table (cdoc ml tn v) = true.
 Proof. reflexivity. Qed.
 
 Lemma forallb_ext_all {A} (f g : A -> bool) l : (forall x, f x = g x) -> forallb f l = forallb g l.
@@ -368,9 +431,9 @@ Proof.
 Qed.
 
 Lemma centry_cases ml x :
-  (is_line x = true /\ centry ml x = gval ml x) \/
-  (exists m', x = TTab m' /\ centry ml x = cdoc ml x) \/
-  (exists l, x = TArr l /\ is_aot x = true /\ centry ml x = TArr (map (cdoc ml) l)).
+  (is_line x = true /\ centry ml true x = gval ml x) \/
+  (exists m', x = TTab m' /\ centry ml true x = cdoc ml true x) \/
+  (exists l, x = TArr l /\ is_aot x = true /\ centry ml true x = TArr (map (cdoc ml true) l)).
 Proof.
   destruct x as [t|l|m'].
   - left. split; reflexivity.
@@ -380,13 +443,13 @@ Proof.
   - right. left. exists m'. split; reflexivity.
 Qed.
 
-Lemma is_table_centry ml x : is_table (centry ml x) = is_table x.
+Lemma is_table_centry ml x : is_table (centry ml true x) = is_table x.
 Proof.
   destruct (centry_cases ml x) as [[L E]|[(m' & -> & E)|(l & -> & A & E)]]; rewrite E;
     [apply is_table_gval|reflexivity|reflexivity].
 Qed.
 
-Lemma is_aot_centry ml x : is_aot (centry ml x) = is_aot x.
+Lemma is_aot_centry ml x : is_aot (centry ml true x) = is_aot x.
 Proof.
   destruct (centry_cases ml x) as [[L E]|[(m' & -> & E)|(l & -> & A & E)]]; rewrite E.
   - apply is_aot_gval.
@@ -395,7 +458,7 @@ Proof.
     clear. induction r as [|e' r' IH]; [reflexivity|]. exact IH.
 Qed.
 
-Lemma any_table_centry ml x : arr_any_table (centry ml x) = arr_any_table x.
+Lemma any_table_centry ml x : arr_any_table (centry ml true x) = arr_any_table x.
 Proof.
   destruct (centry_cases ml x) as [[L E]|[(m' & -> & E)|(l & -> & A & E)]]; rewrite E.
   - apply any_table_gval.
@@ -403,11 +466,11 @@ Proof.
   - rewrite (is_aot_any _ A). destruct l as [|e r]; [discriminate|]. reflexivity.
 Qed.
 
-Lemma is_line_centry ml x : is_line (centry ml x) = is_line x.
+Lemma is_line_centry ml x : is_line (centry ml true x) = is_line x.
 Proof. unfold is_line. rewrite is_table_centry, is_aot_centry. reflexivity. Qed.
-Lemma is_mixed_centry ml x : is_mixed (centry ml x) = is_mixed x.
+Lemma is_mixed_centry ml x : is_mixed (centry ml true x) = is_mixed x.
 Proof. unfold is_mixed. rewrite any_table_centry, is_aot_centry. reflexivity. Qed.
-Lemma is_plain_centry ml x : is_plain (centry ml x) = is_plain x.
+Lemma is_plain_centry ml x : is_plain (centry ml true x) = is_plain x.
 Proof. unfold is_plain. rewrite is_line_centry, is_mixed_centry. reflexivity. Qed.
 
 Lemma pass_gval ml x : pass1 (gval ml x) = pass1 x /\ pass2 (gval ml x) = pass2 x /\ pass3 (gval ml x) = pass3 x.
@@ -463,12 +526,12 @@ Proof.
 Qed.
 
 (* writing a value that was read from a key/value line gives the same line again *)
-Lemma inline_gval ml ml' v : inline_of ml' (gval ml v) = inline_of ml' v.
+Lemma inline_gval ml ml' v : inline_of ml' true (gval ml v) = inline_of ml' true v.
 Proof.
   induction v as [t|l IH|m IH] using tv_ind'.
   - reflexivity.
   - rewrite gval_arr. cbn [inline_of]. rewrite map_length, map_map. f_equal. apply Forall_map_ext. exact IH.
-  - rewrite gval_tab, !inline_of_tab, order3_map, order3_idem, map_map. cbn [fst snd]. f_equal.
+  - rewrite gval_tab, !inline_of_tab. unfold ordn. rewrite order3_map, order3_idem, map_map. cbn [fst snd]. f_equal.
     apply map_ext_in. intros kv Hin. f_equal.
     assert (Hm : In kv m) by (eapply Permutation_in; [apply order3_perm|exact Hin]).
     rewrite Forall_forall in IH. apply IH. exact Hm.
@@ -519,18 +582,18 @@ Proof.
   - apply Permutation_sym, Permutation_nil in P. discriminate.
 Qed.
 
-Lemma filter_ckv ml (p : tv -> bool) l : (forall x, p (centry ml x) = p x) ->
-  filter (fun kv => p (snd kv)) (map (ckv ml) l) = map (ckv ml) (filter (fun kv => p (snd kv)) l).
-Proof. intro H. exact (filter_map_kv (centry ml) p l H). Qed.
+Lemma filter_ckv ml (p : tv -> bool) l : (forall x, p (centry ml true x) = p x) ->
+  filter (fun kv => p (snd kv)) (map (ckv ml true) l) = map (ckv ml true) (filter (fun kv => p (snd kv)) l).
+Proof. intro H. exact (filter_map_kv (centry ml true) p l H). Qed.
 
 Lemma lines_where_canon ml ml' (p : tv -> bool) l l0 :
-  (forall x, p (centry ml x) = p x) -> (forall x, p x = true -> is_line x = true) ->
+  (forall x, p (centry ml true x) = p x) -> (forall x, p x = true -> is_line x = true) ->
   filter (fun kv => p (snd kv)) l = filter (fun kv => p (snd kv)) l0 ->
-  lines_where ml' p (map (ckv ml) l) = lines_where ml' p l0.
+  lines_where ml' true p (map (ckv ml true) l) = lines_where ml' true p l0.
 Proof.
   intros Hc Hl E. unfold lines_where. rewrite (filter_ckv ml p l Hc), E, map_map. unfold ckv. cbn [fst snd].
   apply map_ext_in_filter. intros [k x] H. cbn [fst snd] in *. f_equal.
-  rewrite (centry_line ml x (Hl x H)). apply inline_gval.
+  rewrite (centry_line ml true x (Hl x H)). apply inline_gval.
 Qed.
 
 Lemma flat_map_map {A B C} (f : A -> B) (g : B -> list C) l : flat_map g (map f l) = flat_map (fun x => g (f x)) l.
@@ -538,33 +601,33 @@ Proof. induction l as [|x r IH]; [reflexivity|]. cbn [map flat_map]. rewrite IH.
 
 Lemma flat_map_canon ml (F : bytes * tv -> list section) (cls : tv -> bool) (l l0 : list (bytes * tv)) :
   (forall kv, F kv = if cls (snd kv) then F kv else []) ->
-  (forall x, cls (centry ml x) = cls x) ->
+  (forall x, cls (centry ml true x) = cls x) ->
   filter (fun kv => cls (snd kv)) l = filter (fun kv => cls (snd kv)) l0 ->
-  (forall kv, In kv l0 -> cls (snd kv) = true -> F (ckv ml kv) = F kv) ->
-  flat_map F (map (ckv ml) l) = flat_map F l0.
+  (forall kv, In kv l0 -> cls (snd kv) = true -> F (ckv ml true kv) = F kv) ->
+  flat_map F (map (ckv ml true) l) = flat_map F l0.
 Proof.
   intros HF Hc E Hp.
-  rewrite (flat_map_filter (fun kv => cls (snd kv)) F F (map (ckv ml) l) HF).
+  rewrite (flat_map_filter (fun kv => cls (snd kv)) F F (map (ckv ml true) l) HF).
   rewrite (flat_map_filter (fun kv => cls (snd kv)) F F l0 HF).
   rewrite (filter_ckv ml cls l Hc), E, flat_map_map. apply flat_map_ext_Forall. apply Forall_forall.
   intros kv Hin. apply filter_In in Hin as [Hin H]. apply Hp; assumption.
 Qed.
 
 Definition fix_ok (ml : bool) (v : tv) : Prop :=
-  is_table v = true -> forall ml' p kind, sections_at ml' true (cdoc ml v) p kind = sections_at ml' true v p kind.
+  is_table v = true -> forall ml' p kind, sections_at ml' true true (cdoc ml true v) p kind = sections_at ml' true true v p kind.
 
-Lemma aot_secs_self ml p kv : aot_secs ml p kv = if is_aot (snd kv) then aot_secs ml p kv else [].
+Lemma aot_secs_self ml tn p kv : aot_secs ml tn p kv = if is_aot (snd kv) then aot_secs ml tn p kv else [].
 Proof. unfold aot_secs. destruct (is_aot (snd kv)); reflexivity. Qed.
-Lemma tab_secs_self ml p kv : tab_secs ml p kv = if is_table (snd kv) then tab_secs ml p kv else [].
+Lemma tab_secs_self ml tn p kv : tab_secs ml tn p kv = if is_table (snd kv) then tab_secs ml tn p kv else [].
 Proof. unfold tab_secs. destruct (snd kv); reflexivity. Qed.
-Lemma sub_secs_self ml p kv : sub_secs ml p kv = if negb (is_line (snd kv)) then sub_secs ml p kv else [].
+Lemma sub_secs_self ml tn p kv : sub_secs ml tn p kv = if negb (is_line (snd kv)) then sub_secs ml tn p kv else [].
 Proof.
   unfold sub_secs, is_line. destruct (snd kv) as [t|l|m'] eqn:E; try reflexivity.
   cbn [is_table negb andb]. destruct (is_aot (TArr l)); reflexivity.
 Qed.
 
 Lemma elems_fix ml ml' p k l : forallb is_table l = true -> Forall (fix_ok ml) l ->
-  elem_secs ml' p k (map (cdoc ml) l) = elem_secs ml' p k l.
+  elem_secs ml' true p k (map (cdoc ml true) l) = elem_secs ml' true p k l.
 Proof.
   intros T H. unfold elem_secs. rewrite flat_map_map. apply flat_map_ext_Forall.
   rewrite forallb_forall in T. rewrite Forall_forall in H |- *. intros e He. apply (H e He). apply T. exact He.
@@ -573,20 +636,20 @@ Qed.
 Lemma entry_fix ml kv :
   fix_ok ml (snd kv) -> (forall l, snd kv = TArr l -> Forall (fix_ok ml) l) ->
   forall ml' p,
-    (is_aot (snd kv) = true -> aot_secs ml' p (ckv ml kv) = aot_secs ml' p kv) /\
-    (is_table (snd kv) = true -> tab_secs ml' p (ckv ml kv) = tab_secs ml' p kv) /\
-    (negb (is_line (snd kv)) = true -> sub_secs ml' p (ckv ml kv) = sub_secs ml' p kv).
+    (is_aot (snd kv) = true -> aot_secs ml' true p (ckv ml true kv) = aot_secs ml' true p kv) /\
+    (is_table (snd kv) = true -> tab_secs ml' true p (ckv ml true kv) = tab_secs ml' true p kv) /\
+    (negb (is_line (snd kv)) = true -> sub_secs ml' true p (ckv ml true kv) = sub_secs ml' true p kv).
 Proof.
   destruct kv as [k x]. cbn [snd]. intros Hx Hl ml' p.
-  assert (HA : is_aot x = true -> aot_secs ml' p (ckv ml (k, x)) = aot_secs ml' p (k, x) /\
-                                  sub_secs ml' p (ckv ml (k, x)) = sub_secs ml' p (k, x)).
+  assert (HA : is_aot x = true -> aot_secs ml' true p (ckv ml true (k, x)) = aot_secs ml' true p (k, x) /\
+                                  sub_secs ml' true p (ckv ml true (k, x)) = sub_secs ml' true p (k, x)).
   { intro A. destruct x as [t|l|m']; try discriminate.
     assert (Tl : forallb is_table l = true) by (destruct l; [discriminate|exact A]).
     pose proof (is_aot_centry ml (TArr l)) as A'. rewrite A in A'.
     unfold aot_secs, sub_secs, ckv. cbn [fst snd]. rewrite A'. cbn [centry]. rewrite A.
     rewrite (elems_fix ml ml' p k l Tl (Hl l eq_refl)). split; reflexivity. }
-  assert (HT : is_table x = true -> tab_secs ml' p (ckv ml (k, x)) = tab_secs ml' p (k, x) /\
-                                    sub_secs ml' p (ckv ml (k, x)) = sub_secs ml' p (k, x)).
+  assert (HT : is_table x = true -> tab_secs ml' true p (ckv ml true (k, x)) = tab_secs ml' true p (k, x) /\
+                                    sub_secs ml' true p (ckv ml true (k, x)) = sub_secs ml' true p (k, x)).
   { intro T. destruct x as [t|l|m']; try discriminate.
     pose proof (Hx eq_refl ml' (p ++ [k]) KStd) as E.
     unfold tab_secs, sub_secs, ckv. cbn [fst snd centry]. unfold cdoc at 1 3. cbn beta iota.
@@ -601,21 +664,21 @@ Lemma fix_level ml m :
   Forall (fun kv => fix_ok ml (snd kv) /\ forall l, snd kv = TArr l -> Forall (fix_ok ml) l) m ->
   fix_ok ml (TTab m).
 Proof.
-  intros IH _ ml' p kind. rewrite cdoc_tab, !sections_at_tab. rewrite Forall_forall in IH.
-  assert (EL : own_lines ml' true (map (ckv ml) (order4 m)) = own_lines ml' true m).
+  intros IH _ ml' p kind. rewrite cdoc_tab, doc_order_true, !sections_at_tab. rewrite Forall_forall in IH.
+  assert (EL : own_lines ml' true true (map (ckv ml true) (order4 m)) = own_lines ml' true true m).
   { unfold own_lines. f_equal; apply lines_where_canon.
     - apply is_plain_centry. - apply is_plain_line. - apply order4_plain.
     - apply is_mixed_centry. - apply is_mixed_line. - apply order4_mixed. }
   f_equal.
   - unfold own_section. rewrite EL.
-    assert (EN : nonempty (map (ckv ml) (order4 m)) = nonempty m).
+    assert (EN : nonempty (map (ckv ml true) (order4 m)) = nonempty m).
     { rewrite nonempty_map. apply nonempty_perm. apply order4_perm. }
     destruct kind; cbn [own_visible]; rewrite ?EN; reflexivity.
-  - f_equal.
-    + apply (flat_map_canon ml (aot_secs ml' p) is_aot).
+  - unfold rest_secs. f_equal.
+    + apply (flat_map_canon ml (aot_secs ml' true p) is_aot).
       * apply aot_secs_self. * apply is_aot_centry. * apply order4_aot.
       * intros kv Hin A. destruct (IH kv Hin) as [Hx Hl]. exact (proj1 (entry_fix ml kv Hx Hl ml' p) A).
-    + apply (flat_map_canon ml (tab_secs ml' p) is_table).
+    + apply (flat_map_canon ml (tab_secs ml' true p) is_table).
       * apply tab_secs_self. * apply is_table_centry. * apply order4_table.
       * intros kv Hin T. destruct (IH kv Hin) as [Hx Hl]. exact (proj1 (proj2 (entry_fix ml kv Hx Hl ml' p)) T).
 Qed.
@@ -647,14 +710,14 @@ Proof.
 Qed.
 
 Theorem fixpoint_canonical ml ml' three m :
-  sections_of ml' three (canon_root ml three m) = sections_of ml' three m.
+  sections_of ml' three true (canon_root ml three true m) = sections_of ml' three true m.
 Proof.
   unfold sections_of, canon_root. destruct three.
   - pose proof (fix_ok_all ml (TTab m) eq_refl ml' [] KRoot) as H. rewrite cdoc_tab in H. exact H.
-  - rewrite !sections_at_tab. f_equal.
+  - unfold doc_order, lines_e, subs_e. rewrite !sections_at_tab. f_equal.
     + unfold own_section. cbn [own_visible]. do 2 f_equal.
       unfold own_lines. apply lines_where_canon; [apply is_line_centry|auto|apply filter_line_split].
-    + apply (flat_map_canon ml (sub_secs ml' []) (fun x => negb (is_line x))).
+    + unfold rest_secs. apply (flat_map_canon ml (sub_secs ml' true []) (fun x => negb (is_line x))).
       * apply sub_secs_self.
       * intro x. rewrite is_line_centry. reflexivity.
       * apply filter_nonline_split.
